@@ -752,6 +752,37 @@ impl Gen {
         }
       }
     }
+    // a call chain through a type this module never names: `Visible.f(..).m(..)` where `f` returns a
+    // class of some other module (one that this module may not even import) and `m` is a method
+    // of that class — a dependency on a module two import hops away with no import of it
+    if depth > 0 && rng.chance(1, 3) {
+      let mut cands: Vec<(ClassSig, FnSig, FnSig)> = Vec::new();
+      for c in visible {
+        if matches!(c.kind, ClassKind::Interface) || c.tparam.is_some() {
+          continue;
+        }
+        let own = scope.this_class.as_ref().map(|t| t.name == c.name).unwrap_or(false);
+        for f in c.fns.iter().filter(|f| !f.is_method && (!f.is_private || own)) {
+          if let Ty::Class(rname, false) = &f.ret {
+            let owners: Vec<&ClassSig> =
+              self.specs.values().flat_map(|ms| ms.classes.iter()).filter(|r| &r.name == rname).collect();
+            if let [r] = owners.as_slice() {
+              if r.tparam.is_none() && !matches!(r.kind, ClassKind::Interface) {
+                for m in r.fns.iter().filter(|m| m.is_method && !m.is_private && &m.ret == ty) {
+                  cands.push((c.clone(), f.clone(), m.clone()));
+                }
+              }
+            }
+          }
+        }
+      }
+      if !cands.is_empty() {
+        let (c, f, m) = rng.pick(&cands).clone();
+        let args: Vec<String> = f.params.iter().map(|(_, t)| self.gen_expr(rng, t, depth - 1, scope, visible)).collect();
+        let margs: Vec<String> = m.params.iter().map(|(_, t)| self.gen_expr(rng, t, depth - 1, scope, visible)).collect();
+        return format!("{}.{}({}).{}({})", c.name, f.name, args.join(", "), m.name, margs.join(", "));
+      }
+    }
     // call to a visible function / method returning ty
     if depth > 0 && rng.chance(2, 5) {
       let mut cands: Vec<(ClassSig, FnSig)> = Vec::new();
